@@ -19,6 +19,18 @@ def handleSync (c : J) : Res := Id.run do
       if outcomeName f.outcome != result.getStr "outcome" then
         r := disagree r s!"outcome: model {outcomeName f.outcome} impl {result.getStr "outcome"} {result.getStr "detail"}"
       if f.after != recordedAfter result then r := disagree r s!"addAfter: model {f.after} impl {recordedAfter result}"
+  else
+    let dc := dcfgOfJ (c.getD "cfg")
+    let parts := (c.getStr "key").splitOn ":"
+    let (fin, st) := replay (syncDecorator dc cache (parts.getD 0 "") (parts.getD 1 "") (parts.getD 2 "") (":".intercalate (parts.drop 3))) { recs := recs.map (·, false) } 400
+    for m in st.mismatches do r := disagree r m
+    match fin with
+    | none => pure ()
+    | some f =>
+      for x in unconsumed st do r := disagree r s!"implementation issued a request the model did not: {x.verb} {x.resource} {x.ns}/{x.name} {x.hook}"
+      if outcomeName f.outcome != result.getStr "outcome" then
+        r := disagree r s!"outcome: model {outcomeName f.outcome} impl {result.getStr "outcome"} {result.getStr "detail"}"
+      if f.after != recordedAfter result then r := disagree r s!"addAfter: model {f.after} impl {recordedAfter result}"
   for x in recs do
     if x.isWrite && x.ok then r := tag r x.verb
     if x.isHook then r := tag r ("hook-" ++ x.hook)
